@@ -1,6 +1,7 @@
 //! The harness's own syntax tree for the Lua 5.1 ∩ Luau core, independent of darklua's nodes:
 //! conversion to darklua nodes (public constructors only), from darklua nodes (getters only),
 //! from the S-expressions printed by the Lean parser, and the comparison normal form.
+use super::types::*;
 use darklua_core::nodes as n;
 
 #[derive(Clone, Debug, PartialEq)]
@@ -42,6 +43,8 @@ pub struct Func {
     pub params: Vec<String>,
     pub variadic: bool,
     pub body: Blk,
+    /// Luau types of the signature, when there are any
+    pub sig: Option<Box<Sig>>,
 }
 
 #[derive(Clone, Debug, PartialEq)]
@@ -63,14 +66,18 @@ pub enum Ex {
     Table(Vec<Entry>),
     /// condition, result, elseif branches, else result
     IfExp(Box<Ex>, Box<Ex>, Vec<(Ex, Ex)>, Box<Ex>),
-    /// `e :: Name`
-    Cast(Box<Ex>, String),
+    /// `e :: Type`
+    Cast(Box<Ex>, Ty),
 }
 
 #[derive(Clone, Debug, PartialEq)]
 pub enum St {
     Assign(Vec<Ex>, Vec<Ex>),
     Local(Vec<String>, Vec<Ex>),
+    /// `local a: T, b = ...` (at least one annotation)
+    LocalT(Vec<(String, Option<Ty>)>, Vec<Ex>),
+    /// exported?, name, generic parameters, type
+    TypeDecl(bool, String, Vec<Generic>, Ty),
     Do(Blk),
     CallSt(Ex),
     Compound(usize, Ex, Ex),
@@ -258,8 +265,34 @@ fn typed(names: &[String]) -> Vec<n::TypedIdentifier> {
     names.iter().map(|s| n::TypedIdentifier::new(s.as_str())).collect()
 }
 
+fn typed_params(f: &Func) -> Vec<n::TypedIdentifier> {
+    f.params
+        .iter()
+        .enumerate()
+        .map(|(i, name)| {
+            let id = n::TypedIdentifier::new(name.as_str());
+            match f.sig.as_ref().and_then(|s| s.param_types.get(i)).and_then(|t| t.as_ref()) {
+                Some(t) => id.with_type(to_type(t)),
+                None => id,
+            }
+        })
+        .collect()
+}
+
 fn to_function(f: &Func) -> n::FunctionExpression {
-    n::FunctionExpression::new(to_block(&f.body), typed(&f.params), f.variadic)
+    let mut node = n::FunctionExpression::new(to_block(&f.body), typed_params(f), f.variadic);
+    if let Some(sig) = &f.sig {
+        if let Some(g) = to_generic_parameters(&sig.generics) {
+            node = node.with_generic_parameters(g);
+        }
+        if let Some(v) = &sig.variadic_type {
+            node = node.with_variadic_type(to_function_variadic(v));
+        }
+        if let Some(r) = &sig.ret {
+            node = node.with_return_type(to_return(r));
+        }
+    }
+    node
 }
 
 pub fn to_expr(e: &Ex) -> n::Expression {
@@ -286,9 +319,7 @@ pub fn to_expr(e: &Ex) -> n::Expression {
             }
             node.into()
         }
-        Ex::Cast(inner, name) => {
-            n::TypeCastExpression::new(to_expr(inner), n::TypeName::new(name.as_str())).into()
-        }
+        Ex::Cast(inner, ty) => n::TypeCastExpression::new(to_expr(inner), to_type(ty)).into(),
     }
 }
 
@@ -311,6 +342,49 @@ pub fn to_statement(s: &St) -> n::Statement {
         St::Local(names, vals) => {
             n::VariableAssignment::new(typed(names), vals.iter().map(to_expr).collect()).into()
         }
+        St::LocalT(names, vals) => n::VariableAssignment::new(
+            names
+                .iter()
+                .map(|(name, t)| {
+                    let id = n::TypedIdentifier::new(name.as_str());
+                    match t {
+                        Some(t) => id.with_type(to_type(t)),
+                        None => id,
+                    }
+                })
+                .collect(),
+            vals.iter().map(to_expr).collect(),
+        )
+        .into(),
+        St::TypeDecl(exported, name, generics, ty) => {
+            let mut node = n::TypeDeclarationStatement::new(name.as_str(), to_type(ty));
+            let mut params: Option<n::GenericParametersWithDefaults> = None;
+            for g in generics {
+                params = Some(match (g, params) {
+                    (Generic::Var(v), None) => n::GenericParametersWithDefaults::from_type_variable(v.as_str()),
+                    (Generic::Var(v), Some(p)) => p.with_type_variable(v.as_str()),
+                    (Generic::VarDefault(v, t), None) => {
+                        n::GenericParametersWithDefaults::from_type_variable_with_default(n::TypeVariableWithDefault::new(v.as_str(), to_type(t)))
+                    }
+                    (Generic::VarDefault(v, t), Some(p)) => {
+                        p.with_type_variable_with_default(n::TypeVariableWithDefault::new(v.as_str(), to_type(t))).expect("generic default order")
+                    }
+                    (Generic::Pack(v), None) => {
+                        n::GenericParametersWithDefaults::from_generic_type_pack(n::GenericTypePack::new(v.as_str()))
+                    }
+                    (Generic::Pack(v), Some(p)) => {
+                        p.with_generic_type_pack(n::GenericTypePack::new(v.as_str())).expect("generic pack order")
+                    }
+                });
+            }
+            if let Some(p) = params {
+                node = node.with_generic_parameters(p);
+            }
+            if *exported {
+                node = node.export();
+            }
+            node.into()
+        }
         St::Do(b) => n::DoStatement::new(to_block(b)).into(),
         St::CallSt(c) => to_call(c).into(),
         St::Compound(op, var, val) => {
@@ -322,7 +396,19 @@ pub fn to_statement(s: &St) -> n::Statement {
                 names[1..].iter().map(|s| n::Identifier::new(s.as_str())).collect(),
                 method.as_ref().map(|m| n::Identifier::new(m.as_str())),
             );
-            n::FunctionStatement::new(name, to_block(&f.body), typed(&f.params), f.variadic).into()
+            let mut node = n::FunctionStatement::new(name, to_block(&f.body), typed_params(f), f.variadic);
+            if let Some(sig) = &f.sig {
+                if let Some(g) = to_generic_parameters(&sig.generics) {
+                    node = node.with_generic_parameters(g);
+                }
+                if let Some(v) = &sig.variadic_type {
+                    node = node.with_variadic_type(to_function_variadic(v));
+                }
+                if let Some(r) = &sig.ret {
+                    node = node.with_return_type(to_return(r));
+                }
+            }
+            node.into()
         }
         St::GFor(names, exprs, b) => {
             n::GenericForStatement::new(typed(names), exprs.iter().map(to_expr).collect(), to_block(b))
@@ -341,13 +427,22 @@ pub fn to_statement(s: &St) -> n::Statement {
             else_block.as_ref().map(to_block),
         )
         .into(),
-        St::LocalFn(name, f) => n::FunctionAssignment::new(
-            n::Identifier::new(name.as_str()),
-            to_block(&f.body),
-            typed(&f.params),
-            f.variadic,
-        )
-        .into(),
+        St::LocalFn(name, f) => {
+            let mut node =
+                n::FunctionAssignment::new(n::Identifier::new(name.as_str()), to_block(&f.body), typed_params(f), f.variadic);
+            if let Some(sig) = &f.sig {
+                if let Some(g) = to_generic_parameters(&sig.generics) {
+                    node = node.with_generic_parameters(g);
+                }
+                if let Some(v) = &sig.variadic_type {
+                    node = node.with_variadic_type(to_function_variadic(v));
+                }
+                if let Some(r) = &sig.ret {
+                    node = node.with_return_type(to_return(r));
+                }
+            }
+            node.into()
+        }
         St::Repeat(b, c) => n::RepeatStatement::new(to_block(b), to_expr(c)).into(),
         St::While(c, b) => n::WhileStatement::new(to_block(b), to_expr(c)).into(),
     }
@@ -396,17 +491,11 @@ pub fn from_expr(e: &n::Expression) -> Result<Ex, String> {
         X::Index(i) => from_index(i)?,
         X::Call(c) => from_call(c)?,
         X::Function(f) => {
-            if f.get_return_type().is_some()
-                || f.get_variadic_type().is_some()
-                || f.get_generic_parameters().is_some()
-                || f.iter_parameters().any(|p| p.has_type())
-            {
-                return Err("typed function".into());
-            }
             Ex::Func(Box::new(Func {
                 params: f.iter_parameters().map(|p| p.get_name().clone()).collect(),
                 variadic: f.is_variadic(),
                 body: from_block(f.get_block())?,
+                sig: sig_of(f.iter_parameters(), f.get_generic_parameters(), f.get_variadic_type(), f.get_return_type())?,
             }))
         }
         X::Table(t) => Ex::Table(from_entries(t)?),
@@ -418,13 +507,7 @@ pub fn from_expr(e: &n::Expression) -> Result<Ex, String> {
                 .collect::<Result<Vec<_>, String>>()?,
             Box::new(from_expr(i.get_else_result())?),
         ),
-        X::TypeCast(c) => match c.get_type() {
-            n::Type::Name(name) if !name.has_type_parameters() => Ex::Cast(
-                Box::new(from_expr(c.get_expression())?),
-                name.get_type_name().get_name().clone(),
-            ),
-            _ => return Err("cast to a non-name type".into()),
-        },
+        X::TypeCast(c) => Ex::Cast(Box::new(from_expr(c.get_expression())?), from_type(c.get_type())?),
         X::InterpolatedString(_) => return Err("interpolated string".into()),
         X::TypeInstantiation(_) => return Err("type instantiation".into()),
     })
@@ -477,6 +560,36 @@ fn from_call(c: &n::FunctionCall) -> Result<Ex, String> {
     ))
 }
 
+fn sig_of<'a>(
+    params: impl Iterator<Item = &'a n::TypedIdentifier>,
+    generics: Option<&n::GenericParameters>,
+    variadic: Option<&n::FunctionVariadicType>,
+    ret: Option<&n::FunctionReturnType>,
+) -> Result<Option<Box<Sig>>, String> {
+    let sig = Sig {
+        generics: from_generic_parameters(generics),
+        param_types: params
+            .map(|p| match p.get_type() {
+                Some(t) => from_type(t).map(Some),
+                None => Ok(None),
+            })
+            .collect::<Result<_, _>>()?,
+        variadic_type: match variadic {
+            Some(v) => Some(from_function_variadic(v)?),
+            None => None,
+        },
+        ret: match ret {
+            Some(r) => Some(from_return(r)?),
+            None => None,
+        },
+    };
+    Ok(if sig.is_empty() { None } else { Some(Box::new(sig)) })
+}
+
+fn plain_names<'a>(ids: impl Iterator<Item = &'a n::TypedIdentifier>) -> Vec<String> {
+    ids.map(|p| p.get_name().clone()).collect()
+}
+
 fn names_of<'a>(ids: impl Iterator<Item = &'a n::TypedIdentifier>) -> Result<Vec<String>, String> {
     ids.map(|p| if p.has_type() { Err("typed identifier".to_owned()) } else { Ok(p.get_name().clone()) })
         .collect()
@@ -501,10 +614,25 @@ pub fn from_statement(s: &n::Statement) -> Result<St, String> {
             if a.get_assignment_kind() != n::AssignmentKind::Local {
                 return Err("const assignment".into());
             }
-            St::Local(
-                names_of(a.iter_variables())?,
-                a.iter_values().map(from_expr).collect::<Result<_, _>>()?,
-            )
+            let values = a.iter_values().map(from_expr).collect::<Result<_, _>>()?;
+            if a.iter_variables().any(|v| v.has_type()) {
+                St::LocalT(
+                    a.iter_variables()
+                        .map(|v| {
+                            Ok((
+                                v.get_name().clone(),
+                                match v.get_type() {
+                                    Some(t) => Some(from_type(t)?),
+                                    None => None,
+                                },
+                            ))
+                        })
+                        .collect::<Result<_, String>>()?,
+                    values,
+                )
+            } else {
+                St::Local(plain_names(a.iter_variables()), values)
+            }
         }
         S::Do(d) => St::Do(from_block(d.get_block())?),
         S::Call(c) => St::CallSt(from_call(c)?),
@@ -514,9 +642,6 @@ pub fn from_statement(s: &n::Statement) -> Result<St, String> {
             from_expr(c.get_value())?,
         ),
         S::Function(f) => {
-            if f.get_return_type().is_some() || f.get_generic_parameters().is_some() || f.get_variadic_type().is_some() {
-                return Err("typed function".into());
-            }
             let name = f.get_name();
             let mut names = vec![name.get_name().get_name().clone()];
             names.extend(name.get_field_names().iter().map(|i| i.get_name().clone()));
@@ -524,9 +649,10 @@ pub fn from_statement(s: &n::Statement) -> Result<St, String> {
                 names,
                 name.get_method().map(|m| m.get_name().clone()),
                 Func {
-                    params: names_of(f.iter_parameters())?,
+                    params: plain_names(f.iter_parameters()),
                     variadic: f.is_variadic(),
                     body: from_block(f.get_block())?,
+                    sig: sig_of(f.iter_parameters(), f.get_generic_parameters(), f.get_variadic_type(), f.get_return_type())?,
                 },
             )
         }
@@ -560,21 +686,36 @@ pub fn from_statement(s: &n::Statement) -> Result<St, String> {
             },
         ),
         S::LocalFunction(f) => {
-            if f.get_return_type().is_some() || f.get_generic_parameters().is_some() || f.get_variadic_type().is_some() {
-                return Err("typed function".into());
-            }
             St::LocalFn(
                 f.get_name().to_owned(),
                 Func {
-                    params: names_of(f.iter_parameters())?,
+                    params: plain_names(f.iter_parameters()),
                     variadic: f.is_variadic(),
                     body: from_block(f.get_block())?,
+                    sig: sig_of(f.iter_parameters(), f.get_generic_parameters(), f.get_variadic_type(), f.get_return_type())?,
                 },
             )
         }
         S::Repeat(r) => St::Repeat(from_block(r.get_block())?, from_expr(r.get_condition())?),
         S::While(w) => St::While(from_expr(w.get_condition())?, from_block(w.get_block())?),
-        S::TypeDeclaration(_) => return Err("type declaration".into()),
+        S::TypeDeclaration(t) => {
+            let mut generics = Vec::new();
+            if let Some(params) = t.get_generic_parameters() {
+                for p in params.iter() {
+                    generics.push(match p {
+                        n::GenericParameterRef::TypeVariable(v) => Generic::Var(v.get_name().clone()),
+                        n::GenericParameterRef::TypeVariableWithDefault(v) => {
+                            Generic::VarDefault(v.get_type_variable().get_name().clone(), from_type(v.get_default_type())?)
+                        }
+                        n::GenericParameterRef::GenericTypePack(p) => Generic::Pack(p.get_name().get_name().clone()),
+                        n::GenericParameterRef::GenericTypePackWithDefault(_) => {
+                            return Err("generic pack default".into())
+                        }
+                    });
+                }
+            }
+            St::TypeDecl(t.is_exported(), t.get_name().get_name().clone(), generics, from_type(t.get_type())?)
+        }
         S::TypeFunction(_) => return Err("type function".into()),
     })
 }
@@ -630,7 +771,7 @@ pub fn norm_expr(e: &Ex) -> Ex {
             branches.iter().map(|(a, b)| (norm_expr(a), norm_expr(b))).collect(),
             Box::new(norm_expr(e)),
         ),
-        Ex::Cast(x, name) => Ex::Cast(operand(x), name.clone()),
+        Ex::Cast(x, ty) => Ex::Cast(operand(x), norm_ty(ty)),
     }
 }
 
@@ -654,7 +795,12 @@ fn norm_args(args: &Args) -> Args {
 }
 
 fn norm_func(f: &Func) -> Func {
-    Func { params: f.params.clone(), variadic: f.variadic, body: norm_block(&f.body) }
+    Func {
+        params: f.params.clone(),
+        variadic: f.variadic,
+        body: norm_block(&f.body),
+        sig: f.sig.as_ref().filter(|s| !s.is_empty()).map(|s| Box::new(norm_sig(s))),
+    }
 }
 
 pub fn norm_block(b: &Blk) -> Blk {
@@ -666,6 +812,14 @@ pub fn norm_block(b: &Blk) -> Blk {
             .map(|s| match s {
                 St::Assign(a, v) => St::Assign(exprs(a), exprs(v)),
                 St::Local(n, v) => St::Local(n.clone(), exprs(v)),
+                St::LocalT(n, v) => {
+                    if n.iter().all(|(_, t)| t.is_none()) {
+                        St::Local(n.iter().map(|(name, _)| name.clone()).collect(), exprs(v))
+                    } else {
+                        St::LocalT(n.iter().map(|(name, t)| (name.clone(), t.as_ref().map(norm_ty))).collect(), exprs(v))
+                    }
+                }
+                St::TypeDecl(e, name, g, t) => St::TypeDecl(*e, name.clone(), norm_generics(g), norm_ty(t)),
                 St::Do(b) => St::Do(norm_block(b)),
                 St::CallSt(c) => St::CallSt(norm_expr(c)),
                 St::Compound(op, var, val) => St::Compound(*op, norm_expr(var), norm_expr(val)),
@@ -748,7 +902,8 @@ fn h2_ex(e: &Ex, operator: usize, with_cast: bool) -> bool {
 fn h2_blk_body(b: &Blk, ex: &dyn Fn(&Ex) -> bool, blk: &dyn Fn(&Blk) -> bool) -> bool {
     b.stmts.iter().any(|s| match s {
         St::Assign(a, v) => a.iter().any(ex) || v.iter().any(ex),
-        St::Local(_, v) => v.iter().any(ex),
+        St::Local(_, v) | St::LocalT(_, v) => v.iter().any(ex),
+        St::TypeDecl(..) => false,
         St::Do(b) => blk(b),
         St::CallSt(c) => ex(c),
         St::Compound(_, a, b) => ex(a) || ex(b),
@@ -799,7 +954,7 @@ fn statement_starts_with_parenthesis(s: &St) -> bool {
 
 fn last_expression(s: &St) -> Option<&Ex> {
     match s {
-        St::Assign(_, v) | St::Local(_, v) => v.last(),
+        St::Assign(_, v) | St::Local(_, v) | St::LocalT(_, v) => v.last(),
         St::Compound(_, _, v) => Some(v),
         St::Repeat(_, c) => Some(c),
         _ => None,
